@@ -90,22 +90,35 @@ fn enc_case(ctx: &mut Ctx, d: &BigUint, msg: &[u8], k: Option<&BigUint>, lay: (O
     }
     // scalar actually used = last accepted draw; C1 must be [k]G for it
     let used = seen.accepted.last().cloned();
-    if let Some(k) = k {
-        if used.as_ref() == Some(k) && seen.pending == 0 {
-            match r2::encrypt(&pk, msg, k, lay.0, lay.1) {
-                Some(e) => {
+    let mut k = k.cloned();
+    if let Some(kk) = k.clone() {
+        let refct = r2::encrypt(&pk, msg, &kk, lay.0, lay.1);
+        match refct {
+            Some(e) => {
+                if used.as_ref() == Some(&kk) && seen.pending == 0 {
                     ctx.class("fixed_k_exact");
                     if e != ct {
                         let part = if e[..l1] != ct[..l1] { "C1" } else { "C2/C3" };
-                        ctx.violation(&format!("encrypt:{}:{}:ciphertext-differs-from-standard:{}", cls, layout_name(lay.0, lay.1), part), json!({"case": wit(d, msg, Some(k), lay), "expected": hx(&e), "actual": hx(&ct)}));
+                        ctx.violation(&format!("encrypt:{}:{}:ciphertext-differs-from-standard:{}", cls, layout_name(lay.0, lay.1), part), json!({"case": wit(d, msg, Some(&kk), lay), "expected": hx(&e), "actual": hx(&ct)}));
                         return;
                     }
+                } else {
+                    ctx.violation(&format!("encrypt:{}:injected-valid-k-not-used", cls), json!({"case": wit(d, msg, Some(&kk), lay)}));
                 }
-                None => ctx.class("ref_retry_condition"),
             }
-        } else {
-            ctx.violation(&format!("encrypt:{}:injected-valid-k-not-used", cls), json!({"case": wit(d, msg, Some(k), lay)}));
+            None => {
+                // the standard's retry condition (KDF output all zero, probability 2^-8|M|): the injected k must
+                // have been drawn and then abandoned for a fresh one, which is judged like a free k below
+                ctx.class("ref_retry_condition");
+                if seen.accepted.first() != Some(&kk) || used.as_ref() == Some(&kk) {
+                    ctx.violation(&format!("encrypt:{}:all-zero-KDF-output-not-retried", cls), json!({"case": wit(d, msg, Some(&kk), lay), "ct": hx(&ct)}));
+                    return;
+                }
+                k = None;
+            }
         }
+    }
+    if k.is_some() {
     } else {
         ctx.class("free_k");
         match used {
